@@ -355,8 +355,12 @@ pub fn execute(c: &PlaceCase) -> PlaceObs {
         (X86End::Ret { .. }, _) => true,
         _ => false,
     };
-    if safe_to_run && dest_ok {
-        crate::worker::phase("call");
+    // Bytes the mini-decoder does not know are not a verdict by themselves (a tree may emit a
+    // different, equally valid sequence): then the isolated worker simply executes the call and
+    // the returned value (or the crash) decides.  A *decoded wrong destination* is never executed.
+    let unknown = matches!(out.end, X86End::Unknown { .. } | X86End::HopLimit);
+    if (safe_to_run && dest_ok) || unknown {
+        crate::worker::phase(if unknown { "call-undecoded" } else { "call" });
         o.executed = true;
         o.calls.push((target.call)());
         let n = c.callers.min(4) as usize;
